@@ -290,8 +290,8 @@ impl Property for C09 {
             knobs: Knobs { max_nodes, variant, ..Default::default() },
         };
         match tier {
-            Tier::Quick => vec![mk("trees", 300_000, 30, 0), mk("trees-many-prefixes", 150_000, 30, 1)],
-            Tier::Thorough => vec![mk("trees", 2_000_000, 30, 0), mk("trees-big", 100_000, 100, 0), mk("trees-many-prefixes", 800_000, 30, 1)],
+            Tier::Quick => vec![mk("trees", 300_000, 30, 0), mk("trees-many-prefixes", 150_000, 30, 1), mk("trees-moved", 120_000, 24, 2)],
+            Tier::Thorough => vec![mk("trees", 2_000_000, 30, 0), mk("trees-big", 100_000, 100, 0), mk("trees-many-prefixes", 800_000, 30, 1), mk("trees-moved", 800_000, 24, 2)],
         }
     }
 
@@ -303,6 +303,8 @@ impl Property for C09 {
         o.max_depth = 8;
         // layered re-declarations and aliases make shadowing frequent
         o.redundant_decls = src.bool();
+        // plan trees-moved: explicit declarations of the xml prefix as well
+        o.xml_prefix_decls = ctx.knobs.variant == 2;
         let doc = match src.weighted(&[3, 2, 4]) {
             0 => gen::gen_document(src, &o),
             1 => gen::gen_fragment(src, &o),
@@ -339,7 +341,64 @@ impl Property for C09 {
         ctx.rendering(|| doc.show());
         let skip = ctx.is_known("noNsElementNameUnderDefaultNs");
         let mut cx = Cx { xot: &mut xot, prefixes, namespaces, shadow_seen: false, deep_decl_seen: false, checked: 0, skip_no_ns_under_default: skip, skipped: 0, suspect: false };
-        let r = walk(&mut cx, root, &doc, &scope::base_scope(), 0);
+        let mut r = walk(&mut cx, root, &doc, &scope::base_scope(), 0);
+        // plan trees-moved: every node has been asked about; now subtrees move to where other declarations
+        // are in force (or out of the tree) and every node is asked again — answers may not be remembered
+        // across a change of the tree. The new shape is read back through the structural API; the scope
+        // each node must see is still computed here from the declarations alone.
+        if ctx.knobs.variant == 2 && r.is_ok() {
+            let moves = 1 + src.choice(3);
+            for _ in 0..moves {
+                let els: Vec<Node> = match crate::bridge::bounded(cx.xot.descendants(root), 100_000, "descendants") {
+                    Ok(v) => v.into_iter().filter(|n| cx.xot.is_element(*n)).collect(),
+                    Err(e) => return Verdict::Fail(e),
+                };
+                if els.len() < 2 {
+                    break;
+                }
+                let a = els[src.choice_big(els.len())];
+                let b = els[src.choice_big(els.len())];
+                if a == root {
+                    continue;
+                }
+                let mut top = root;
+                if src.ratio(1, 4) {
+                    if cx.xot.detach(a).is_err() {
+                        return Verdict::Fail("harness: detach refused".into());
+                    }
+                    ctx.label("subtree_detached_then_asked_again");
+                    top = a;
+                } else {
+                    if a == b || cx.xot.ancestors(b).any(|x| x == a) {
+                        continue;
+                    }
+                    let res = match src.choice(3) {
+                        0 => cx.xot.append(b, a),
+                        1 => cx.xot.prepend(b, a),
+                        _ => {
+                            if b == root {
+                                cx.xot.append(b, a)
+                            } else {
+                                cx.xot.insert_after(b, a)
+                            }
+                        }
+                    };
+                    if res.is_err() {
+                        // e.g. a second element under a document node
+                        continue;
+                    }
+                    ctx.label("subtree_moved_then_asked_again");
+                }
+                let now = match bridge::read(cx.xot, top) {
+                    Ok(d) => d,
+                    Err(e) => return Verdict::Fail(format!("harness: {}", e)),
+                };
+                r = walk(&mut cx, top, &now, &scope::base_scope(), 0).map_err(|e| format!("after moving a subtree (every node had been asked about before): {} [tree now {}]", e, now.show()));
+                if r.is_err() || top != root {
+                    break;
+                }
+            }
+        }
         // never-declared prefix must not be reported as defined anywhere
         if r.is_ok() {
             let never = cx.prefixes.last().unwrap().1;
